@@ -753,7 +753,11 @@ def render_dml_query(statement, dialect):
         def render_literal_value(self, value, type_):
 
             if isinstance(value, (str, dt.date, dt.datetime, dt.timedelta)):
-                return "'{}'".format(str(value).replace("'", "''"))
+                value = str(value)
+                if dialect.name == 'mysql':
+                    # backslash is an escape character inside MySQL string literals
+                    value = value.replace('\\', '\\\\')
+                return "'{}'".format(value.replace("'", "''"))
 
             return super(LiteralCompiler, self).render_literal_value(value, type_)
 
